@@ -88,7 +88,28 @@ pub fn gen_shell(u: &mut Un) -> ShellSpec {
 }
 
 pub fn wild_wrap(n: Node, u: &mut Un) -> Node {
-    match u.below(21) {
+    match u.below(23) {
+        // a default that is validated afterwards: the check (or conversion) then fails on a
+        // value that was never on the line
+        21 => Node::Guard {
+            n: Node::Fallback {
+                n: n.b(),
+                value: "fb".into(),
+                shown: u.bool(),
+            }
+            .b(),
+            pred: u.pick(&[Pred::False, Pred::NotEq("fb".into())]).clone(),
+            msg: "guard failed".into(),
+        },
+        22 => Node::Parse {
+            n: Node::FallbackWith {
+                n: n.b(),
+                ok: true,
+                value: "fbw".into(),
+            }
+            .b(),
+            f: ParseFn::Never("never parses".into()),
+        },
         0 => Node::Optional {
             n: n.b(),
             catch: u.bool(),
